@@ -113,7 +113,7 @@ def _chain(pid, req, t3=None):
 
 _chain("C03", ["ante_accept_sound", "wrong_key_rejected", "mutation_rejected", "low_fee_rejected", "fee_from_signer"])
 _chain("C11", ["reject_frame", "readonly_frame", "undecodable_frame", "accept_shape"])
-_chain("C17", ["param_change_authorised", "change_only_that_key", "dao_authorised", "gov_unauthorised_rejected", "block_ops_keep_gov"])
+_chain("C17", ["param_change_authorised", "change_only_that_key", "dao_authorised", "gov_unauthorised_rejected", "block_ops_keep_gov", "gov_change_authorised", "gov_run"])
 
 _chain("C07", ["slashAmount_exact", "slash_exact", "slash_noop", "doublesign_burns_all", "evidence_expired_ignored", "evidence_refused"])
 _chain("C08", ["window_step", "window_init", "counter_is_window_count", "window_frame", "minSigned_rounding"])
@@ -124,7 +124,7 @@ _chain("C02", ["supply_eq_balances", "tx_supply", "end_supply", "begin_supply", 
 _chain("C04", ["pool_backs_stake", "genesis_surplus_zero", "surplus_step", "stake_exact", "maturity_exact"])
 _chain("C05", ["updates_reach_target", "target_spec", "update_no_halt", "genesis_updates"])
 _chain("C06", ["index_and_queue_exact", "min_stake_step", "status_step", "matures_on_time", "never_early", "end_no_halt"])
-_chain("C09", ["jailed_not_in_target", "jailed_excluded_after_end", "unjail_iff", "unjail_effect", "tombstone_forever", "doublesign_tombstones"])
+_chain("C09", ["jailed_not_in_target", "jailed_excluded_after_end", "unjail_iff", "unjail_effect", "tombstone_forever", "tombstone_forever_run", "doublesign_tombstones"])
 
 PROPS["C20"] = {
     "lean_modules": ["Posmint.Props.C20"], "namespaces": ["Posmint.Props.C20"],
